@@ -8,7 +8,7 @@ native axiom alone.
 import CamVerif.Model.BitMask
 import CamVerif.Proofs.C02
 namespace CamVerif.Proofs.C02K
-open CamVerif CamVerif.Reg CamVerif.BitMask CamVerif.Proofs.C02
+open CamVerif CamVerif.Reg CamVerif.BitMask CamVerif.Proofs.C02 CamVerif.Spec.Codec
 
 theorem bind_eq_ok {α β : Type} (x : R α) (f : α → R β) (b : β) (h : (x >>= f) = .ok b) :
     ∃ a, x = .ok a ∧ f a = .ok b := by
@@ -145,7 +145,7 @@ theorem normalise_lit_kernel (p : Profile) (k bits : BitVec 64) (hmul : (k <<< 3
     congr 1
     bv_omega
 
-theorem normalise_eq_kernel (p : Profile) (n : Nat) (hn : Spec.Codec.IntLen n) (e : Endianness)
+theorem normalise_eq_kernel (p : Profile) (n : Nat) (hn : IntLen n) (e : Endianness)
     (raw : BitVec 64) (hr : raw.toNat < 8 * n) :
     normalise p raw (lenUsize (n : Int)) e = .ok (normB n e raw) := by
   have hlt : n < 2 ^ 63 := by rcases hn with rfl | rfl | rfl | rfl <;> decide
@@ -170,5 +170,90 @@ theorem mask_eq_kernel (p : Profile) (n : Nat) (e : Endianness) (bm : BitMask) (
     rw [BitVec.lt_def] at this; exact this
   simp only [BitMask.mask, BitMask.lsb, BitMask.msb, normalise_eq_kernel p n wf.1 e _ wf.2.1,
     normalise_eq_kernel p n wf.1 e _ wf.2.2.1, Res.bind_ok, maskCore_eq_kernel p _ _ hle hm]
+
+/-! ### the proofs-local `specExtract` is `Spec.Codec.fieldU` / `fieldS` (kernel-only) -/
+
+/-- bits of the unsigned extraction -/
+theorem specExtract_unsigned_getLsbD (l m w : BitVec 64) (h1 : l.toNat ≤ m.toNat) (h2 : m.toNat < 64)
+    (i : Nat) (hi : i < 64) :
+    (specExtract .unsigned l m w).getLsbD i =
+      (decide (i < m.toNat - l.toNat + 1) && w.getLsbD (l.toNat + i)) := by
+  simp only [specExtract]
+  rw [BitVec.ushiftRight_eq', BitVec.getLsbD_ushiftRight, BitVec.getLsbD_and]
+  by_cases hb : l.toNat + i < 64
+  · rw [fieldMask_getLsbD l m h1 h2 _ hb, Bool.and_comm]
+    congr 1
+    rw [Bool.eq_iff_iff]
+    simp only [decide_eq_true_eq]
+    omega
+  · have h1' : w.getLsbD (l.toNat + i) = false := BitVec.getLsbD_of_ge _ _ (by omega)
+    simp [h1']
+
+/-- **the unsigned field is `Spec.Codec.fieldU`**: `(word / 2^l) mod 2^(m-l+1)` -/
+theorem specExtract_unsigned_toNat (l m w : BitVec 64) (h1 : l.toNat ≤ m.toNat) (h2 : m.toNat < 64) :
+    (specExtract .unsigned l m w).toNat = fieldU l.toNat m.toNat w.toNat := by
+  apply Nat.eq_of_testBit_eq
+  intro i
+  unfold fieldU fieldWidth
+  rw [Nat.testBit_mod_two_pow, Nat.testBit_div_two_pow]
+  by_cases hi : i < 64
+  · have := specExtract_unsigned_getLsbD l m w h1 h2 i hi
+    simp only [BitVec.getLsbD] at this
+    rw [this, Nat.add_comm i l.toNat]
+  · have hx : (specExtract .unsigned l m w).toNat.testBit i = false :=
+      Nat.testBit_lt_two_pow (Nat.lt_of_lt_of_le (specExtract .unsigned l m w).isLt
+        (Nat.pow_le_pow_right (by omega) (by omega)))
+    have hw : w.toNat.testBit (i + l.toNat) = false :=
+      Nat.testBit_lt_two_pow (Nat.lt_of_lt_of_le w.isLt (Nat.pow_le_pow_right (by omega) (by omega)))
+    rw [hx, hw]; simp
+
+/-- the signed extraction is "take the `wd` field bits, sign-extend to 64" -/
+theorem specExtract_signed_eq (l m w : BitVec 64) (h1 : l.toNat ≤ m.toNat) (h2 : m.toNat < 64) :
+    specExtract .signed l m w =
+      ((w >>> l.toNat).setWidth (m.toNat - l.toNat + 1)).signExtend 64 := by
+  have hk : ((63 : BitVec 64) - m).toNat = 63 - m.toNat := by
+    rw [BitVec.toNat_sub_of_le (by rw [BitVec.le_def]; show m.toNat ≤ 63; omega)]; rfl
+  have hs : ((63 : BitVec 64) - m + l).toNat = 63 - m.toNat + l.toNat := by
+    rw [BitVec.toNat_add, hk]; have := l.isLt; omega
+  apply BitVec.eq_of_getLsbD_eq
+  intro i hi
+  simp only [specExtract]
+  rw [BitVec.sshiftRight_eq', hs, BitVec.getLsbD_sshiftRight, BitVec.getLsbD_signExtend,
+    BitVec.msb_eq_getLsbD_last, BitVec.msb_eq_getLsbD_last]
+  simp only [BitVec.shiftLeft_eq', hk, BitVec.getLsbD_shiftLeft, BitVec.getLsbD_setWidth,
+    BitVec.getLsbD_ushiftRight, hi, decide_true, Bool.true_and, Nat.add_sub_cancel]
+  have hnot : ¬ (64 ≤ i) := by omega
+  simp only [hnot, decide_false, Bool.not_false, Bool.true_and]
+  by_cases hlt : i < m.toNat - l.toNat + 1
+  · have h1' : 63 - m.toNat + l.toNat + i < 64 := by omega
+    have h2' : ¬ (63 - m.toNat + l.toNat + i < 63 - m.toNat) := by omega
+    simp only [h1', hlt, if_true, h2', decide_false, Bool.not_false, Bool.true_and, decide_true]
+    congr 1; omega
+  · have h1' : ¬ (63 - m.toNat + l.toNat + i < 64) := by omega
+    have h3 : ¬ (64 - 1 < 63 - m.toNat) := by omega
+    have h4 : m.toNat - l.toNat < m.toNat - l.toNat + 1 := by omega
+    simp only [h1', hlt, if_false, h3, decide_false, Bool.not_false, Bool.true_and, h4, decide_true,
+      show (64 - 1 < 64) from by omega]
+    congr 1; omega
+
+/-- **the signed field is `Spec.Codec.fieldS`**: two's-complement reading of `fieldU` -/
+theorem specExtract_signed_toInt (l m w : BitVec 64) (h1 : l.toNat ≤ m.toNat) (h2 : m.toNat < 64) :
+    (specExtract .signed l m w).toInt = fieldS l.toNat m.toNat w.toNat := by
+  rw [specExtract_signed_eq l m w h1 h2, BitVec.toInt_signExtend_of_le (by omega),
+    BitVec.toInt_eq_toNat_cond]
+  have hn : ((w >>> l.toNat).setWidth (m.toNat - l.toNat + 1)).toNat = fieldU l.toNat m.toNat w.toNat := by
+    simp [fieldU, fieldWidth, BitVec.toNat_setWidth, BitVec.toNat_ushiftRight, Nat.shiftRight_eq_div_pow]
+  rw [hn]
+  unfold fieldS fieldWidth
+  split <;> simp [Int.natCast_pow]
+
+/-- **`specExtract` is the independent codec's field reading** -/
+theorem specExtract_toInt (s : Sign) (l m w : BitVec 64) (h1 : l.toNat ≤ m.toNat) (h2 : m.toNat < 64) :
+    (specExtract s l m w).toInt = fieldReading s l.toNat m.toNat w.toNat := by
+  cases s
+  · exact specExtract_signed_toInt l m w h1 h2
+  · simp only [fieldReading, asI64, ← specExtract_unsigned_toNat l m w h1 h2]
+    rw [BitVec.toInt_eq_toNat_cond]
+    split <;> simp
 
 end CamVerif.Proofs.C02K
